@@ -18,7 +18,7 @@ RULE = ("A case is (heap kind min|max, key range, operation history). Operations
         "handles are the HeapNodes returned by push and only live handles are used (the documented precondition). "
         "Generated: sequences of up to 60 (quick) / 400 (thorough) operations over keys {0..3} (many duplicates) or "
         "{0..50}, plus 200-2000-operation sequences in the thorough tier. Bounded exhaustive: every sequence of length "
-        "<= 5 (quick) / 6 (thorough) over a 14-letter operation alphabet with keys {0,1,2} and handles addressed by "
+        "<= 5 (quick) / 6 (thorough) over a 15-letter operation alphabet (which includes clear(): the queue is emptied and used again) with keys {0,1,2} and handles addressed by "
         "live position, for both heap kinds. Oracle after every step: len(heap) == number of live items, bool agrees, "
         "peek()/pop() return a live item whose key equals the model's minimum (maximum), never a removed one; utils."
         "smallest/largest (single list or several arguments, n in {1,2,3,5,12}, key functions none / negation / mod 3 / abs / constant) return min(n, len) input items whose keys are the n best keys of sorted(). Non-trivial: a decrease_key or remove executed after at least one pop "
@@ -34,7 +34,7 @@ MANIFEST_NOTE = "Trusts the 20-line list model in this module."
 DESIGN_REF = 'DESIGN.md section 3, C16'
 SHRINK = {'lists': ['ops', 'items'], 'enums': {'keyfn': None}}
 
-ALPHABET = ([['push', k] for k in (0, 1, 2)] + [['pop'], ['peek']] + [['removeat', i] for i in (0, 1, 2)] +
+ALPHABET = ([['push', k] for k in (0, 1, 2)] + [['pop'], ['peek'], ['clear']] + [['removeat', i] for i in (0, 1, 2)] +
             [['dec0', i] for i in (0, 1, 2)] + [['dec1', i] for i in (0, 1, 2)])
 
 
@@ -54,7 +54,7 @@ def selections(draw):
     items = draw(st.lists(st.integers(-6, 6), min_size=0, max_size=9))
     return {'kind': 'select', 'which': draw(st.sampled_from(['smallest', 'largest'])), 'items': items,
             'n': draw(st.sampled_from([1, 1, 2, 3, 5, 12])), 'keyfn': draw(st.sampled_from([None, None, 'neg', 'mod3', 'abs', 'const'])),
-            'varargs': len(items) >= 2 and draw(st.booleans())}
+            'varargs': len(items) >= 2 and draw(st.booleans()), 'style': draw(st.sampled_from(['list', 'list', 'generator', 'map', 'tuple']))}
 
 
 @st.composite
@@ -68,6 +68,7 @@ def histories(draw, max_ops, min_ops=0):
         st.tuples(st.just('dec'), st.integers(0, 30), st.integers(0, kr)),
         st.tuples(st.just('inc'), st.integers(0, 30), st.integers(1, 3)),       # an attempt on the wrong side: refused
         st.tuples(st.just('remove'), st.integers(0, 30)),
+        st.tuples(st.just('clear')) if draw(st.integers(0, 2)) == 0 else st.tuples(st.just('len')),
         st.tuples(st.just('len')))
     ops = [list(draw(op)) for _ in range(n)]
     return {'kind': draw(st.sampled_from(['min', 'max'])), 'ops': ops}
@@ -127,7 +128,17 @@ def check_select(case):
         kw = {'n': n}
         if kf is not None:
             kw['key'] = kf
-        got = list(fn(*items, **kw)) if case.get('varargs') else list(fn(list(items), **kw))
+        style = case.get('style', 'list')
+        if case.get('varargs'):
+            got = list(fn(*items, **kw))
+        elif style == 'generator':
+            got = list(fn((x for x in items), **kw))        # one-shot iterables without a length
+        elif style == 'map':
+            got = list(fn(map(int, items), **kw))
+        elif style == 'tuple':
+            got = list(fn(tuple(items), **kw))
+        else:
+            got = list(fn(list(items), **kw))
     want_n = min(n, len(items))
     desc = f"{which}({'*' if case.get('varargs') else ''}{items!r}, n={n}, key={case.get('keyfn')})"
     if len(got) != want_n:
@@ -139,7 +150,7 @@ def check_select(case):
         if [keyof(x) for x in got] != ref:
             out.fail(f'{which}-not-best', f"{desc} yields {got!r} (keys {[keyof(x) for x in got]}), the {n} best keys are {ref}")
     out.nontrivial = len(items) > n and len(set(map(keyof, items))) > 1
-    out.label('select:' + which, 'key:' + str(case.get('keyfn')))
+    out.label('select:' + which, 'key:' + str(case.get('keyfn')), 'input:' + ('varargs' if case.get('varargs') else case.get('style', 'list')))
     return out
 
 
@@ -156,6 +167,7 @@ def check(case):
     popped = False
     post = False
     refused = False
+    cleared = False
     executed = 0
 
     def best():
@@ -235,6 +247,11 @@ def check(case):
                 executed += 1
                 if popped:
                     post = True
+            elif name == 'clear':
+                h.clear()           # the queue is emptied and used again (search.py does this with its two queues)
+                live.clear()
+                cleared = True
+                executed += 1
             elif name == 'len':
                 pass
             if heap_len(h) != len(live):
@@ -262,6 +279,8 @@ def check(case):
     out.label('max' if maxheap else 'min')
     if refused:
         out.label('refused-key-change')
+    if cleared:
+        out.label('cleared-and-reused')
     if post:
         out.label('decrease/remove-after-pop')
     out.info = {'executed_ops': executed}
